@@ -384,4 +384,12 @@ theorem stored_pair_is_current (kinds : Pid → Kind) (g0 : Nat) (ps : List Pid)
 example : let s := [0, 1, 2, 0, 1, 0, 1, 2, 0, 0, 1, 2, 0, 1, 1, 2, 2, 2, 0, 1, 2, 0, 1, 2, 0, 1, 2, 2, 2, 2].foldl (fun s p => (step s p).1) (init (fun p => if p = 2 then .proxy else .refresh) 0)
     s.presented = [0] ∧ s.sess = some ⟨1, true, true, 0⟩ ∧ s.lock = none ∧ (s.procs 0).status = 200 ∧ (s.procs 1).status = 200 ∧ (s.procs 2).status = 200 := by decide
 
+-- non-vacuity of `served_previous_or_new`: process 2 (proxied) is served the NEW token after refresher 0's write-back; process 3 (proxied), whose refresh finds the
+-- entry gone after a logout (process 1), falls back to the PREVIOUS token it read first
+example : let s := [0, 0, 0, 0, 0, 0, 0, 2, 2].foldl (fun s p => (step s p).1) (init (fun p => if p = 2 then .proxy else .refresh) 5)
+    (s.procs 2).served = some 6 ∧ (s.procs 2).status = 200 := by decide
+
+example : let s := [3, 3, 1, 1, 1, 3, 3, 3].foldl (fun s p => (step s p).1) (init (fun p => if p = 1 then .logoutLocal else .proxy) 5)
+    (s.procs 3).served = some 5 ∧ s.sess = none ∧ s.presented = [] := by decide
+
 end Ww.Proofs.C07
